@@ -16,6 +16,7 @@
     poolCancel    the context of the pool is cancelled (signal): `Shutdown` closes the channel
     workerExit w  idle worker observes the cancelled context / closed empty channel and returns
 -/
+import GrogModel.Walker
 namespace Grog.Pool
 
 abbrev Task := Nat
@@ -168,3 +169,70 @@ def execCountOld (c : RerunCfg) : Nat :=
   1 + (if c.minimal && (c.loadFails || c.noCache) then c.dependantsExecuting else 0)
 
 end Grog.Pool
+
+/-
+  Composition: the walker, and for every node the state of the pool task its callback submits
+  (execute.go: the walk callback ends in `workerPool.Run(taskFunc)`). Worker identities are
+  abstracted (the list-based model above bounds their number); what the composition adds is the
+  bracket: a task exists only between the entry and the return of its node's callback, and commands
+  start only under a live walk context.
+-/
+namespace Grog.Sys
+open Grog.Walker
+
+inductive TaskSt where
+  | none | queued | busy (cmd : Bool) | finished
+  deriving DecidableEq, Repr
+
+/-- the task is in the job channel or on a worker -/
+def TaskSt.active : TaskSt → Bool
+  | .queued | .busy _ => true
+  | _ => false
+
+structure State where
+  w    : Walker.State
+  task : Node → TaskSt
+
+def init (c : Cfg) : State := { w := Walker.init c, task := fun _ => .none }
+
+inductive Ev where
+  | walker (e : Walker.Ev)          -- any walker event except the return of a callback
+  | submit (n : Node)               -- the callback of n calls workerPool.Run
+  | take (n : Node)                 -- a worker takes the job
+  | cmdStart (n : Node)             -- exec.CommandContext(ctx, ..).Run() inside the task
+  | cmdEnd (n : Node)
+  | done (n : Node)                 -- the task function returns, the result is handed to Run
+  | cbReturn (n : Node) (r : Res)   -- the callback returns (after its task finished, or without a task)
+
+def isCbReturn : Walker.Ev → Bool
+  | .cbReturn _ _ => true
+  | _ => false
+
+def step (c : Cfg) (s : State) : Ev → Option State
+  | .walker e =>
+    if isCbReturn e then none else
+    match Walker.step c s.w e with
+    | some w' => some { s with w := w' }
+    | none => none
+  | .submit n =>
+    if s.w.phase n = .running ∧ s.task n = .none then some { s with task := set s.task n .queued } else none
+  | .take n =>
+    if s.task n = .queued then some { s with task := set s.task n (.busy false) } else none
+  | .cmdStart n =>
+    if s.task n = .busy false ∧ s.w.ctx = false then some { s with task := set s.task n (.busy true) } else none
+  | .cmdEnd n =>
+    if s.task n = .busy true then some { s with task := set s.task n (.busy false) } else none
+  | .done n =>
+    if s.task n = .busy false then some { s with task := set s.task n .finished } else none
+  | .cbReturn n r =>
+    if s.task n = .finished ∨ s.task n = .none then
+      match Walker.step c s.w (.cbReturn n r) with
+      | some w' => some { s with w := w' }
+      | none => none
+    else none
+
+inductive Reach (c : Cfg) : State → Prop where
+  | init : Reach c (init c)
+  | step {s e s'} : Reach c s → step c s e = some s' → Reach c s'
+
+end Grog.Sys
